@@ -4,7 +4,7 @@ cd "$(dirname "$0")/.."
 tier=$1; shift
 for seed in "$@"; do
   for p in C01 C02 C03 C04 C05 C06 C07 C08 C09 C10 C11 C12 C13 C14 C15 C16 C17 C18 C19 C20; do
-    out=$(VERIF_SEED=$seed ./harness/target/release/mbn-verif check $p --tier $tier 2>&1); code=$?
+    out=$(VERIF_SEED=$seed ./check $p --tier $tier 2>&1); code=$?
     echo "seed=$seed $p exit=$code $(echo "$out" | grep -E "^$p " | tail -1)"
     if [ $code -ne 0 ]; then echo "$out" | grep -vE "^KNOWN" | head -5; fi
   done
